@@ -86,12 +86,37 @@ Theorem C08_one_invocation_per_element_in_order :
 Proof. exact c08_serve_follows. Qed.
 Print Assumptions C08_one_invocation_per_element_in_order.
 
+(* Serve returns nil exactly when the peer closed the stream: the script is
+   keep-alives and complete elements without stream-level constructs up to the
+   peer's closing tag, and every handler invocation ended without error. So no
+   error a handler returns ends Serve with nil — an error that wraps io.EOF or
+   claims to be it ([EWrapEOF]) no more than any other; a handler's bare io.EOF is
+   reported as ErrUnexpectedEOF (C08_resync) —, and the only inputs that read as
+   the close are </stream:stream> and, on a WebSocket stream, a top-level framing
+   element whose name ends the input (<close/>). The comparison `err == io.EOF`
+   in Serve is read from the source ([sv_serve_eof_identity]). *)
+Theorem C08_nil_only_at_peer_close :
+  (forall (c : cfg) (hf : nat -> handlers) (toks : list token) (base : list name),
+   ends_match base toks = true ->
+   (s_ret (serve_all c hf toks) = None <->
+    reaches_close c toks /\ Forall (fun v => v_ret v = None) (s_invs (serve_all c hf toks)))) /\
+  (forall (c : cfg) (l : list token), top_err (c_ws c) l = Some EEOF ->
+    (exists n r, l = TEnd n :: r /\ bytes_eqb (nspace n) sv_ns_stream = true /\ bytes_eqb (nlocal n) s_stream = true) \/
+    (exists n a r, l = TStart n a :: r /\ c_ws c = true /\ bytes_eqb (nspace n) sv_ns_framing = true /\
+                   in_list (nlocal n) sv_ws_eof_locals = true)) /\
+  (forall (c : cfg) (fuel : nat) (hf : handlers) (pd : N) (n : name) (a : list attr) (l : list token),
+   clean (c_ws c) (TStart n a) = true -> length l < fuel -> (forall a', hf n a' = HRet (Some EWrapEOF)) ->
+   exists v p', his c fuel hf (mkp (TStart n a :: l) pd false) = (HRInv v, p') /\ v_ret v = Some EWrapEOF) /\
+  (sv_serve_eof_identity = true /\ sv_serve_switches = 1 /\ sv_serve_clauses = 3).
+Proof. exact (conj c08_nil_iff_close (conj top_err_eof (conj c08_wrapped_eof tbl_serve_eof))). Qed.
+Print Assumptions C08_nil_only_at_peer_close.
+
 (* Stream-level constructs never reach a handler and end the session:
    - nothing a handler reads is a stream-level token;
    - between elements, a stream-level construct, non-whitespace text or a
      tokenizer error ends Serve with that error and no further invocation; the
      peer's closing tag ends it with nil; a received stream error is returned as
-     that error;
+     that error, also one without a defined condition;
    - inside an element, whatever the handler does (even if it ignores read
      errors), the invocation fails, hence Serve ends with an error;
    - the same for the framing elements of a WebSocket stream (last clauses). *)
@@ -101,10 +126,13 @@ Theorem C08_stream_level_never_delivered :
      s_invs (serve_all c hf toks) = [] /\ s_ret (serve_all c hf toks) = ret_of e) /\
   (forall c hf n rest, bytes_eqb (nspace n) sv_ns_stream = true -> bytes_eqb (nlocal n) s_stream = true ->
      s_invs (serve_all c hf (TEnd n :: rest)) = [] /\ s_ret (serve_all c hf (TEnd n :: rest)) = None) /\
-  (forall c hf cond a a1 n1 n2 rest, bytes_eqb cond s_text = false -> cond <> [] ->
+  (forall c hf cond a a1 n1 n2 rest, bytes_eqb cond s_text = false ->
      let toks := TStart (mkname sv_ns_stream s_error) a
                  :: TStart (mkname sv_ns_stream_error cond) a1 :: TEnd n1 :: TEnd n2 :: rest in
      s_invs (serve_all c hf toks) = [] /\ s_ret (serve_all c hf toks) = Some (EStreamErr cond)) /\
+  (forall c hf a n2 rest,
+     let toks := TStart (mkname sv_ns_stream s_error) a :: TEnd n2 :: rest in
+     s_invs (serve_all c hf toks) = [] /\ s_ret (serve_all c hf toks) = Some (EStreamErr [])) /\
   (forall c fuel hf pd n a l pre t r base,
      clean (c_ws c) (TStart n a) = true -> scan (c_ws c) 0 l = (pre, SEDirty t r) -> length l < fuel ->
      ends_match (n :: base) l = true ->
@@ -125,7 +153,7 @@ Theorem C08_stream_level_never_delivered :
      clean ws (TStart n a) = false /\ dirty_err ws (TStart n a) r = ERestart) /\
   (sv_ws_eof_locals = [str "close"] /\ sv_ws_eof_top_only = true /\ sv_ws_eof_unrecognised = 0).
 Proof.
-  exact (conj c08_scan_clean (conj c08_top (conj c08_close (conj c08_stream_error_returned (conj c08_nested_fatal
-          (conj c08_ws_close (conj c08_ws_restart (conj c08_ws_nested tbl_ws_close)))))))).
+  exact (conj c08_scan_clean (conj c08_top (conj c08_close (conj c08_stream_error_returned (conj c08_stream_error_no_condition (conj c08_nested_fatal
+          (conj c08_ws_close (conj c08_ws_restart (conj c08_ws_nested tbl_ws_close))))))))).
 Qed.
 Print Assumptions C08_stream_level_never_delivered.
